@@ -202,7 +202,7 @@ CLAIMS = {
              "Tie/monitor: random declaration layouts x a battery of name tests and namespace-uri/local-name/name queries vs the model, "
              "and the same queries after renaming the document's prefixes, and after renaming the expression's prefixes with the bindings.",
         note="Trusted: Lean kernel, model Tree.lean (scope computation), generators. Known finding namespace-nodes (namespace axis).",
-        technique="Lean 4 proof (list lemmas on scope computation, congruence of the node test) + metamorphic differential correspondence",
+        technique="Lean 4 proof (list lemmas on scope computation, congruence of the node test, mutual induction over the evaluator for both renamings) + metamorphic differential correspondence",
         ref="DESIGN.md section 6 C10"),
     "C19": dict(
         text="In the model parsing, tree building and evaluation are functions of their arguments and the context of a predicate is passed "
